@@ -56,7 +56,7 @@ func (n Number) Number() float64 {
 }
 
 func (n Number) Bool() bool {
-	return n != 0
+	return n == n && n != 0
 }
 
 type String string
